@@ -245,6 +245,8 @@ pub enum Elem {
     OutBorder,
     /// n undocumented ED NOPs (ED 00): ordinary 8-T instructions, interruptible like any other
     EdNops(u8),
+    /// n times DD ED 44: NEG behind a stray index prefix, 12 T, one instruction for the interrupt logic
+    DdEdNegs(u8),
 }
 
 fn elem_code(e: &Elem, contended_data: bool) -> Vec<u8> {
@@ -261,6 +263,7 @@ fn elem_code(e: &Elem, contended_data: bool) -> Vec<u8> {
         // OUT (FE),A : contended I/O every pass
         Elem::OutBorder => vec![0xD3, 0xFE],
         Elem::EdNops(n) => (0..*n).flat_map(|_| [0xEDu8, 0x00]).collect(),
+        Elem::DdEdNegs(n) => (0..*n).flat_map(|_| [0xDDu8, 0xED, 0x44]).collect(),
     }
 }
 
@@ -340,6 +343,13 @@ pub fn run_program(ctx: &Ctx, m128: bool, p: &Program, frames: u64, verbose: boo
     while rig::abs_t(&e, m128) < end_t {
         // implementation: one emulate()
         rig::step(&mut e);
+        // DD/FD followed by ED: the implementation returns between the ED byte and the opcode, which
+        // is not an instruction boundary of the reference; it is stepped on to the end of the instruction
+        // (an interrupt accepted in between shows as a divergence)
+        if e.verif_cpu().verif_active_prefix() == 0xED {
+            rig::step(&mut e);
+        }
+        let it_now = rig::abs_t(&e, m128);
         // reference: aligned macro-step
         loop {
             match rc.step(&mut bus) {
@@ -358,7 +368,9 @@ pub fn run_program(ctx: &Ctx, m128: bool, p: &Program, frames: u64, verbose: boo
                     }
                 }
             }
-            if e.verif_cpu().verif_active_prefix() != 0 && rc.pending_prefix != 0 {
+            // the implementation returns in the middle of a prefix chain (after DD FD, or DD ED): the
+            // reference stops at the same point of the chain
+            if e.verif_cpu().verif_active_prefix() != 0 && rc.pending_prefix != 0 && bus.t >= it_now {
                 break;
             }
         }
@@ -405,7 +417,7 @@ pub fn run_program(ctx: &Ctx, m128: bool, p: &Program, frames: u64, verbose: boo
 }
 
 fn elems() -> Vec<Elem> {
-    let mut v = vec![Elem::Halt, Elem::Ldir, Elem::Indexed, Elem::Ei, Elem::Di, Elem::OutBorder, Elem::EdNops(9)];
+    let mut v = vec![Elem::Halt, Elem::Ldir, Elem::Indexed, Elem::Ei, Elem::Di, Elem::OutBorder, Elem::EdNops(9), Elem::DdEdNegs(7)];
     for n in [1u8, 2, 3, 5, 7, 11, 13, 17, 19, 23, 24] {
         v.push(Elem::Nops(n));
     }
